@@ -62,3 +62,15 @@ def _c14_dotted_scheme(f: Failure) -> bool:
     else:
         return False
     return isinstance(got, str) and got.lower() == m.group(1).lower()
+
+
+# ---------------------------------------------------------------------------------- C18 -------
+@finding("C18", "retries-bool-int-collide-in-pool-key")
+def _c18_retries_bool_int(f: Failure) -> bool:
+    """PoolKey compares key_retries with ==, and Python has 0 == False (and 1 == True), so a context asking for
+    retries=False (re-raise, return the 3xx) and one asking for retries=0 (MaxRetryError) get one pool."""
+    c, o = f["case"], f["observed"]
+    if f["kind"] != "different-settings-same-pool" or c.get("kw") != "retries" or c.get("via") != "pool_kwargs":
+        return False
+    # value table order for retries: #0 -> 0, #1 -> 1, #2 -> 5, #3 -> False
+    return sorted([o.get("i"), o.get("j")]) == [0, 3]
